@@ -60,6 +60,7 @@ def encEntries : Tags → List UInt8
   | [] => []
   | p :: rest => encStr p.1 ++ encStr p.2 ++ encEntries rest
 
+/-- `tagMagicByte` (serf.go); tied to the source by `SerfProofs.C30.C30_src_constants` -/
 def tagMagicByte : UInt8 := 255
 
 /-- `Serf.encodeTags` (protocol ≥ 3), entries in list order. -/
@@ -137,6 +138,50 @@ def allAccepted (sh : SetTagsShape) (s : St) : List TagEdit → Bool
 `none` = the agent does not start. -/
 def restart (s : St) : Option St :=
   if fits s.file then some { effective := s.file, file := s.file } else none
+
+/-! ### heap view: the live map, the gossiped tags and the file
+
+The value view above identifies "the tags in effect" with one map.  In the program there
+are two: the map object `Serf.config.Tags` points to (what `SerfConfig().Tags` returns, what
+the next edit starts from) and the node's gossiped meta data (what `LocalMember().Tags` and
+every other member see).  `handleTags` is handed the live object; whether it computes the
+edit in a FRESH map or writes into the live one is the parameter `HandleShape.freshMap`
+(extracted into `SerfModel.Gen.AgentTagsSrc.freshMap`).  A handler that reuses the live map
+when nothing is deleted (seeded change C30-b) modifies the tags in effect before
+`Serf.SetTags` has validated them. -/
+
+structure HandleShape where
+  /-- `tags := make(map[string]string)`: the edit is computed in a new map -/
+  freshMap : Bool
+  deriving DecidableEq, Repr, Inhabited
+
+structure Heap where
+  /-- content of the map object `Serf.config.Tags` points to -/
+  conf : Tags
+  /-- the node's gossiped meta data, decoded -/
+  gossiped : Tags
+  /-- content of the tags file -/
+  file : Tags
+  deriving Repr, Inhabited
+
+/-- One RPC `tags` request in the heap view. -/
+def heapStep (hs : HandleShape) (sh : SetTagsShape) (h : Heap) (e : TagEdit) : Heap × Bool :=
+  -- without a fresh map the live object is written to when the request deletes nothing
+  let aliased := !hs.freshMap && e.del.isEmpty
+  let new := if aliased then mapsCopy h.conf e.set else edit h.conf e.set e.del
+  let live := if aliased then new else h.conf
+  let ok := fits new
+  -- Agent.SetTags: file write per `sh`; Serf.SetTags: size check, then `s.config.Tags = tags`, UpdateNode
+  let file' := if sh.fileFirst then new else if sh.fileGuarded then (if ok then new else h.file) else new
+  ({ conf := if ok then new else live, gossiped := if ok then new else h.gossiped, file := file' }, ok)
+
+def heapRun (hs : HandleShape) (sh : SetTagsShape) (h : Heap) : List TagEdit → Heap
+  | [] => h
+  | e :: rest => heapRun hs sh (heapStep hs sh h e).1 rest
+
+/-- Next start in the heap view: everything is what the file holds. -/
+def heapRestart (h : Heap) : Option Heap :=
+  if fits h.file then some { conf := h.file, gossiped := h.file, file := h.file } else none
 
 /-! ### canonical order for the line protocol (Go `sort.Strings` = bytewise) -/
 
